@@ -69,7 +69,8 @@ func (t *HtmlScanner) GetAllTokens() ([]*Token, error) {
 	for t.err == nil && !t.done {
 		t.NextToken()
 	}
-	if errors.Is(t.err, io.EOF) {
+	if t.done && errors.Is(t.err, io.EOF) {
+		// 读到输入末尾 正常结束; 属性值编译错误里包装的 EOF(属性值不完整)不能当做正常结束
 		t.err = nil
 	}
 	return t.tokens, t.err
